@@ -51,6 +51,9 @@ pub struct TlsCase {
     pub record_per_command: bool,
     /// (index of the server's write() call, error kind 100/101/102): fails once, takes no bytes
     pub write_fault: Option<(u64, u8)>,
+    /// the transport is a buffered stream: what the server writes reaches the client only when the
+    /// server flushes (legal for any `Read + Write`; a BufWriter in front of a socket does this)
+    pub buffer_writes: bool,
 }
 
 pub fn run_tls(m: &TlsMaterial, c: &TlsCase) -> Result<TlsObs, String> {
@@ -117,6 +120,7 @@ pub fn run_tls(m: &TlsMaterial, c: &TlsCase) -> Result<TlsObs, String> {
     w.ssl_seq = c.seqs.0;
     w.raw_limit = c.raw_limit;
     w.write_fault = c.write_fault;
+    w.buffer_writes = c.buffer_writes;
     if c.record_per_command && c.app_override.is_none() {
         w.app_chunks = chunks;
     }
@@ -245,7 +249,7 @@ fn judge(m: &TlsMaterial, c: &TlsCase, o: &TlsObs, rep: &mut Report, d: &dyn Fn(
         return;
     }
     if o.world.deadlock {
-        fail("deadlock", format!("the server called read() while the TLS client was waiting for server bytes (client raw bytes served: {})", o.world.served), rep);
+        fail("deadlock", format!("the server called read() while the TLS client was waiting for server bytes (client raw bytes served: {}; {} bytes written by the server but not flushed to the transport)", o.world.served, o.world.unflushed.len()), rep);
         return;
     }
     if o.world.wedged {
@@ -398,7 +402,7 @@ pub fn run(ctx: &Ctx) -> Report {
         if quit {
             cmds.push(Cmd::quit());
         }
-        let c = TlsCase { tls13, with_cert, server_mode: mode, user: CANARY_USER.to_vec(), cmds, scripts, first_cut: cut, cycle: vec![], write_limit: usize::MAX, close_notify: true, raw_limit: None, hs_variant: 0, app_override: None, seqs: (1, 2), auth_reject: None, record_per_command: false, write_fault: None };
+        let c = TlsCase { tls13, with_cert, server_mode: mode, user: CANARY_USER.to_vec(), cmds, scripts, first_cut: cut, cycle: vec![], write_limit: usize::MAX, close_notify: true, raw_limit: None, hs_variant: 0, app_override: None, seqs: (1, 2), auth_reject: None, record_per_command: false, write_fault: None, buffer_writes: rng.bool() };
         let o = match run_tls(mref, &c) {
             Ok(o) => o,
             Err(e) => {
@@ -441,7 +445,7 @@ pub fn run(ctx: &Ctx) -> Report {
             cmds.push(Cmd::quit());
         }
         let first_cut = if rng.bool() { rng.range(1, 60) as usize } else { 0 };
-        let c = TlsCase { tls13, with_cert, server_mode: mode, user: CANARY_USER.to_vec(), cmds, scripts, first_cut, cycle, write_limit: wl, close_notify, raw_limit: None, hs_variant: if rng.bool() { rng.next() | 1 } else { 0 }, app_override: None, seqs: (1, 2), auth_reject: None, record_per_command: rng.bool(), write_fault: None };
+        let c = TlsCase { tls13, with_cert, server_mode: mode, user: CANARY_USER.to_vec(), cmds, scripts, first_cut, cycle, write_limit: wl, close_notify, raw_limit: None, hs_variant: if rng.bool() { rng.next() | 1 } else { 0 }, app_override: None, seqs: (1, 2), auth_reject: None, record_per_command: rng.bool(), write_fault: None, buffer_writes: rng.bool() };
         let o = match run_tls(mref, &c) {
             Ok(o) => o,
             Err(e) => {
@@ -467,7 +471,7 @@ pub fn run(ctx: &Ctx) -> Report {
         let ncmd = rng.range(1, 4) as usize;
         let (mut cmds, scripts) = tls_script(rng, ncmd);
         cmds.push(Cmd::quit());
-        let mut c = TlsCase { tls13: rng.bool(), with_cert: false, server_mode: 0, user: CANARY_USER.to_vec(), cmds, scripts, first_cut: 0, cycle: vec![], write_limit: usize::MAX, close_notify: false, raw_limit: None, hs_variant: 0, app_override: None, seqs: (1, 2), auth_reject: None, record_per_command: rng.chance(1, 3), write_fault: None };
+        let mut c = TlsCase { tls13: rng.bool(), with_cert: false, server_mode: 0, user: CANARY_USER.to_vec(), cmds, scripts, first_cut: 0, cycle: vec![], write_limit: usize::MAX, close_notify: false, raw_limit: None, hs_variant: 0, app_override: None, seqs: (1, 2), auth_reject: None, record_per_command: rng.chance(1, 3), write_fault: None, buffer_writes: rng.bool() };
         let dry = match run_tls(mref, &c) {
             Ok(o) => o,
             Err(e) => {
@@ -525,7 +529,7 @@ pub fn run(ctx: &Ctx) -> Report {
             cmds.push(Cmd::quit());
         }
         let big_input = cmds.iter().map(|c| c.payload.len()).sum::<usize>() > 100_000;
-        let mut c = TlsCase { tls13: rng.bool(), with_cert: rng.bool(), server_mode: 0, user: CANARY_USER.to_vec(), cmds, scripts: m.conv.scripts.clone(), first_cut: if rng.bool() { rng.range(1, 60) as usize } else { 0 }, cycle: if rng.bool() { vec![] } else { vec![rng.range(1, 2000) as usize] }, write_limit: wl, close_notify, raw_limit: None, hs_variant: 0, app_override: None, seqs: (1, 2), auth_reject: None, record_per_command: rng.bool(), write_fault: None };
+        let mut c = TlsCase { tls13: rng.bool(), with_cert: rng.bool(), server_mode: 0, user: CANARY_USER.to_vec(), cmds, scripts: m.conv.scripts.clone(), first_cut: if rng.bool() { rng.range(1, 60) as usize } else { 0 }, cycle: if rng.bool() { vec![] } else { vec![rng.range(1, 2000) as usize] }, write_limit: wl, close_notify, raw_limit: None, hs_variant: 0, app_override: None, seqs: (1, 2), auth_reject: None, record_per_command: rng.bool(), write_fault: None, buffer_writes: rng.bool() };
         if big_input && !c.cycle.is_empty() {
             // the real parser zero-fills its doubling buffer before every read: tiny reads over megabytes
             // cost minutes (a cost bound of the harness, as in the plaintext mega workload)
@@ -554,7 +558,7 @@ pub fn run(ctx: &Ctx) -> Report {
     let r = par_cases(ctx, "C18", "refusals", n, |rng, i, rep| {
         let mode = if i % 2 == 0 { 3 } else { 1 };
         let (cmds, scripts) = tls_script(rng, 2);
-        let c = TlsCase { tls13: rng.bool(), with_cert: false, server_mode: mode, user: CANARY_USER.to_vec(), cmds, scripts, first_cut: rng.below(80) as usize, cycle: if rng.bool() { vec![] } else { vec![rng.range(1, 40) as usize] }, write_limit: usize::MAX, close_notify: true, raw_limit: None, hs_variant: 0, app_override: None, seqs: (1, 2), auth_reject: None, record_per_command: false, write_fault: None };
+        let c = TlsCase { tls13: rng.bool(), with_cert: false, server_mode: mode, user: CANARY_USER.to_vec(), cmds, scripts, first_cut: rng.below(80) as usize, cycle: if rng.bool() { vec![] } else { vec![rng.range(1, 40) as usize] }, write_limit: usize::MAX, close_notify: true, raw_limit: None, hs_variant: 0, app_override: None, seqs: (1, 2), auth_reject: None, record_per_command: false, write_fault: None, buffer_writes: rng.bool() };
         let o = match run_tls(mref, &c) {
             Ok(o) => o,
             Err(e) => {
